@@ -31,6 +31,8 @@ cProg0 == CASE P = "dA_lA" -> << <<"deferred", "A">>, <<"load", "A">> >>
            [] P = "lC_rC_lC_lC" -> << <<"load", "C">>, <<"refresh", "C">>, <<"load", "C">>, <<"load", "C">> >>
            [] P = "lA_tC_rA_lA" -> << <<"load", "A">>, <<"touch", "C">>, <<"refresh", "A">>, <<"load", "A">> >>
            [] P = "lA_tC_rA_lA_lB_lC" -> << <<"load", "A">>, <<"touch", "C">>, <<"refresh", "A">>, <<"load", "A">>, <<"load", "B">>, <<"load", "C">> >>
+           [] P = "dC_aC_lC" -> << <<"deferred", "C">>, <<"appear", "C">>, <<"load", "C">> >>
+           [] P = "lC_aC_lC_lB" -> << <<"load", "C">>, <<"appear", "C">>, <<"load", "C">>, <<"load", "B">> >>
            [] P = "dA_tB_rA_lA_lB" -> << <<"deferred", "A">>, <<"touch", "B">>, <<"refresh", "A">>, <<"load", "A">>, <<"load", "B">> >>
            [] P = "dB_rA_lB_lA" -> << <<"deferred", "B">>, <<"refresh", "A">>, <<"load", "B">>, <<"load", "A">> >>
            [] OTHER -> << <<"load", "C">>, <<"deferred", "A">>, <<"load", "C">> >>
@@ -42,14 +44,16 @@ cCache == [uu \in URLS |-> IF CS = "warm" /\ cFetch[uu] THEN "fresh" ELSE IF CS 
 KnownErr == IF IOEnv.KNOWN = "none" THEN {} ELSE {"RuntimeError"}
 
 NoRaise == \A p \in Procs : err[p] \in {"ok"} \cup KnownErr
+\* results[ii][4]: the resource could be fetched and parsed when the call returned
 Transparent == \A ii \in DOMAIN results :
-                  IF cFetch[results[ii][1]] /\ cParse[results[ii][1]] THEN results[ii][2] \notin {NoneV, Absent}
+                  IF results[ii][4] THEN results[ii][2] \notin {NoneV, Absent}
                   ELSE results[ii][2] = NoneV
 \* "later loads return the same cached object until refresh": within one epoch (no refresh begun in between)
-SameCached == \A ii, jj \in DOMAIN results : (results[ii][1] = results[jj][1] /\ results[ii][3] = results[jj][3]) => results[ii][2] = results[jj][2]
+SameCached == \A ii, jj \in DOMAIN results : (results[ii][1] = results[jj][1] /\ results[ii][3] = results[jj][3] /\ results[ii][2] # NoneV /\ results[jj][2] # NoneV)
+                                                  => results[ii][2] = results[jj][2]
 \* a fetch that fails never creates or overwrites a cache file
-CacheSafe == /\ \A uu \in cachew : cFetch[uu]
-             /\ \A uu \in URLS : ~cFetch[uu] => cache[uu] = cCache[uu]
+CacheSafe == /\ \A uu \in cachew : avail[uu]
+             /\ \A uu \in URLS : ~avail[uu] => cache[uu] = cCache[uu]
 \* a fresh cache copy is never replaced except after a refresh; a stale or missing one is fetched before use
 NeverServesStale == \A uu \in URLS : (loaded[uu] \notin {Absent, NoneV} \/ tloaded[uu] \notin {Absent, NoneV}) => cache[uu] = "fresh"
 Stopped(p) == pc[p] \in {"Done", "HDead", "DDead", "THDead", "TDDead"}
